@@ -1,5 +1,20 @@
+from decimal import Decimal, ROUND_HALF_UP
+from .exceptions import DeviceError
+
+
 class PrintUsingFormatter:
     """Formats text according to QBASIC's PRINT USING statement rules.
+
+    A format string consists of literal characters (an underscore makes
+    the next character literal), string fields ("&" prints the whole
+    string, "!" its first character) and numeric fields. A numeric
+    field is an optional leading "+", digit positions ("#", with
+    commas in the integer part asking for thousands separators), an
+    optional "." followed by the decimal positions, and - when there is
+    no leading "+" - an optional trailing "+" or "-". The value is
+    rounded to the number of decimal positions and right-aligned in
+    exactly the width of the field; a value that does not fit is printed
+    in full with a leading "%".
 
     """
 
@@ -8,156 +23,157 @@ class PrintUsingFormatter:
         self.fmt_parts = []
         self.parse_format_string(fmt)
 
+    @staticmethod
+    def _starts_numeric_field(fmt, i):
+        c = fmt[i]
+        rest = fmt[i+1:i+3]
+        if c == '#':
+            return True
+        if c == '.':
+            return rest[:1] == '#'
+        if c == '+':
+            return rest[:1] == '#' or rest[:2] == '.#'
+        return False
 
     def parse_format_string(self, fmt):
         i = 0
         non_formatting = ''
-        redo_no_number = False
+
+        def flush():
+            nonlocal non_formatting
+            if non_formatting:
+                self.fmt_parts.append(('non', non_formatting))
+                non_formatting = ''
+
         while i < len(fmt):
-            if fmt[i] in ['#', '+', '-'] and not redo_no_number:
-                if non_formatting:
-                    self.fmt_parts.append(('non', non_formatting))
-                    non_formatting = ''
-                n, part = self.parse_numeric_format_string(fmt, i)
-                if part[2]['real_sharps'] == 0:
-                    redo_no_number = True
-                    continue
-                else:
-                    i += n
-                    self.fmt_parts.append(part)
-
-            if i >= len(fmt):
-                break
-
-            redo_no_number = False
-            if fmt[i] in ['&', '!']:
-                if non_formatting:
-                    self.fmt_parts.append(('non', non_formatting))
-                    non_formatting = ''
-                self.fmt_parts.append(('str', fmt[i]))
-                i += 1
-            elif fmt[i] == '_':
-                non_formatting += fmt[i+1]
+            c = fmt[i]
+            if c == '_':
+                # the next character is printed as it is (a trailing
+                # underscore stands for itself)
+                non_formatting += fmt[i+1] if i + 1 < len(fmt) else '_'
                 i += 2
+            elif c in '&!':
+                flush()
+                self.fmt_parts.append(('str', c))
+                i += 1
+            elif self._starts_numeric_field(fmt, i):
+                flush()
+                n, part = self.parse_numeric_format_string(fmt, i)
+                self.fmt_parts.append(part)
+                i += n
             else:
-                non_formatting += fmt[i]
+                non_formatting += c
                 i += 1
 
-        if non_formatting:
-            self.fmt_parts.append(('non', non_formatting))
-
+        flush()
 
     def parse_numeric_format_string(self, fmt, idx):
         options = {}
-        sign = ''
         i = idx
-        sharps = 0
-        real_sharps = 0
 
-        if fmt[i] in '+-':
-            options['sign'] = ('begin', fmt[i])
-            sign = fmt[i]
-            sharps += 1
+        if fmt[i] == '+':
+            options['sign'] = ('begin', '+')
             i += 1
 
-        while i < len(fmt):
-            if not sign and fmt[i] in '+-':
-                options['sign'] = ('end', fmt[i])
-                sharps += 1
-                i += 1
-                break
-            elif fmt[i] == '#':
-                sharps += 1
-                real_sharps += 1
-                i += 1
-            elif fmt[i] == ',':
+        while i < len(fmt) and fmt[i] in '#,':
+            if fmt[i] == ',':
                 options['comma'] = True
-                sharps += 1
-                i += 1
-            elif fmt[i] == '.':
-                if 'decimal_point' in options:
-                    break
-                sharps += 1
-                options['decimal_point'] = sharps
-                i += 1
-            else:
-                break
+            i += 1
 
-        options['real_sharps'] = real_sharps
-        return i - idx, ('num', sharps*'#', options)
+        if i < len(fmt) and fmt[i] == '.':
+            i += 1
+            decimals = 0
+            while i < len(fmt) and fmt[i] == '#':
+                decimals += 1
+                i += 1
+            options['decimals'] = decimals
 
+        if 'sign' not in options and i < len(fmt) and fmt[i] in '+-':
+            options['sign'] = ('end', fmt[i])
+            i += 1
+
+        width = i - idx
+        return width, ('num', width * '#', options)
 
     def format(self, values):
-        fmt_parts = [
-            p if len(p) == 3 else (p + ({},))
-            for p in self.fmt_parts
-        ]
+        n_fields = sum(1 for p in self.fmt_parts if p[0] != 'non')
+        if n_fields == 0:
+            if values:
+                raise DeviceError(
+                    error_msg='PRINT USING format has no field for '
+                    'the given values')
+            return ''.join(p[1] for p in self.fmt_parts)
+
         output = ''
         i = 0
-        for (fmt_type, fmt, options) in fmt_parts:
-            if fmt_type != 'non' and i >= len(fmt_parts):
-                raise RuntimeError('Not enough values.')
-
-            if fmt_type == 'non':
-                output += fmt
-            elif fmt_type == 'str':
-                if not isinstance(values[i], str):
-                    raise RuntimeError('Type mismatch.')
-                output += values[i][0] if fmt == '!' else values[i]
+        # the format string is used again when there are more values
+        # than fields; output stops at the first field for which no
+        # value is left
+        while True:
+            for part in self.fmt_parts:
+                fmt_type, fmt = part[0], part[1]
+                if fmt_type == 'non':
+                    output += fmt
+                    continue
+                if i >= len(values):
+                    return output
+                value = values[i]
                 i += 1
-            elif fmt_type == 'num':
-                output += self.format_number(fmt, values[i], options)
-                i += 1
-            else:
-                assert False
-
-        if i < len(values):
-            raise RuntimeError('Too many values.')
-
-        return output
-
+                if fmt_type == 'str':
+                    if not isinstance(value, str):
+                        raise DeviceError(
+                            error_msg='Type mismatch in PRINT USING '
+                            '(string field, numeric value)')
+                    if fmt == '!':
+                        # an empty string prints as a blank
+                        output += value[:1] or ' '
+                    else:
+                        output += value
+                else:
+                    if isinstance(value, str):
+                        raise DeviceError(
+                            error_msg='Type mismatch in PRINT USING '
+                            '(numeric field, string value)')
+                    output += self.format_number(fmt, value, part[2])
+            if i >= len(values):
+                return output
 
     def format_number(self, fmt, value, options):
-        fmt_str = '{:'
-        if options.get('comma', False):
-            fmt_str += ','
-        if 'decimal_point' in options:
-            fmt_str += '.'
-            fmt_str += str(len(fmt) - options['decimal_point'])
-            fmt_str += 'f'
-        fmt_str += '}'
+        width = len(fmt)
+        decimals = options.get('decimals')
+        sign_pos, sign_type = options.get('sign', ('begin', '-'))
 
-        if 'sign' in options:
-            sign_pos, sign_type = options['sign']
-        else:
-            sign_pos, sign_type = 'begin', '-'
+        # round the exact value to the number of decimal positions
+        exact = Decimal(value)
+        quantum = Decimal(1).scaleb(-(decimals or 0))
+        rounded = abs(exact).quantize(quantum, rounding=ROUND_HALF_UP)
+        negative = exact < 0 and rounded != 0
 
-        sign = -1 if value < 0 else 1
-        value = abs(value)
+        digits = f'{rounded:f}'
+        int_part, _, frac_part = digits.partition('.')
+        if options.get('comma'):
+            int_part = f'{int(int_part):,}'
 
-        result = fmt_str.format(value)
+        def assemble(int_digits):
+            body = int_digits
+            if decimals is not None:
+                body += '.' + frac_part
+            if sign_pos == 'end':
+                if sign_type == '+':
+                    return body + ('-' if negative else '+')
+                return body + ('-' if negative else ' ')
+            if sign_type == '+':
+                return ('-' if negative else '+') + body
+            return ('-' if negative else '') + body
 
-        if sign_type == '-':
-            sign = '-' if sign == -1 else ' '
-        else:
-            sign = '-' if sign == -1 else '+'
+        result = assemble(int_part)
+        if len(result) > width and int_part == '0' and decimals:
+            # the zero before the decimal point is dropped when there
+            # is no room for it
+            without_zero = assemble('')
+            if len(without_zero) <= width:
+                result = without_zero
 
-        if sign_pos == 'begin':
-            result = sign + result
-        else:
-            result = result + sign
-            if sign != '-':
-                result = ' ' + result
-
-        if len(result) < len(fmt):
-            result = ' ' * (len(fmt) - len(result)) + result
-
-        if sign == ' ' and len(result) > len(fmt) and sign_pos == 'begin':
-            result = result[1:]
-        elif sign == ' ' and len(result) > len(fmt) and sign_pos == 'end':
-            result = result[:-1]
-
-        if len(result) > len(fmt):
-            result = '%' + result
-
-        return result
+        if len(result) > width:
+            return '%' + result
+        return ' ' * (width - len(result)) + result
